@@ -145,6 +145,38 @@ def impl_rows(world: E.World, root_obj):
             except Exception as e:  # noqa: BLE001
                 problems.append({"node": h(n), "raised": f"{type(e).__name__}: {e}"})
             rows[h(n)] = r
+    # the same relations under ambient default filters (the library's default, and type filters set by the caller): each is
+    # the unfiltered relation restricted to the nodes the ambient filters let through - for start nodes of every kind,
+    # also those the filters hide
+    import contextlib
+    from delb import is_comment_node as _isc, is_tag_node as _ist, is_text_node as _isx
+
+    by_handle = {h(n): n for n in nodes}
+    for amb_name, ctx, pred in (
+        ("library default", contextlib.nullcontext, lambda o: _ist(o) or _isx(o)),
+        ("comments only", lambda: altered_default_filters(_isc), _isc),
+        ("tags only", lambda: altered_default_filters(_ist), _ist),
+    ):
+        for n in nodes:
+            r = rows.get(h(n)) or {}
+            try:
+                with ctx():
+                    got = {
+                        "children": hs(n.iterate_children()), "descendants": hs(n.iterate_descendants()),
+                        "following": hs(n.iterate_following()), "preceding": hs(n.iterate_preceding()),
+                        "next_sibs": hs(n.iterate_following_siblings()), "prev_sibs": hs(n.iterate_preceding_siblings()),
+                    }  # (the ancestor axis is not subject to the default filters)
+                    ff, fp = h(n.fetch_following()), h(n.fetch_preceding())
+                for rel, g in got.items():
+                    want = [i for i in r.get(rel, []) if pred(by_handle[i])]
+                    if g != want:
+                        problems.append({"node": h(n), "relation": rel, "ambient": amb_name, "filtered": g, "restricted": want})
+                if ff != next((i for i in r.get("following", []) if pred(by_handle[i])), None):
+                    problems.append({"node": h(n), "relation": "fetch_following", "ambient": amb_name})
+                if fp != next((i for i in r.get("preceding", []) if pred(by_handle[i])), None):
+                    problems.append({"node": h(n), "relation": "fetch_preceding", "ambient": amb_name})
+            except Exception as e:  # noqa: BLE001
+                problems.append({"node": h(n), "ambient": amb_name, "raised": f"{type(e).__name__}: {e}"})
     return rows, problems
 
 
